@@ -743,7 +743,8 @@ func Gen(r *verifh.Rng, nsec int, via string) []verifh.Section {
 		}
 		cfg := fmt.Sprintf("mode=%s g=%d k=%d procs=%d objs=%d", mode, g, k, procs, objs)
 		if via != "" {
-			cfg += fmt.Sprintf(" opt=%d", r.Pick(0, 0, 1, 2))
+			// the constructor's options: 0 none, 1 / 2 present, 3 zero-valued, 4 negative, 5 empty / swapped order (see the targets)
+			cfg += fmt.Sprintf(" opt=%d", r.Pick(0, 0, 1, 2, 3, 4, 5))
 		}
 		if via == "cacheNode.Take" {
 			// dst=1: every goroutine takes into ONE destination variable, call after call, and overwrites it as soon as a
